@@ -239,7 +239,7 @@ Proof.
   unfold srv_finish. cbv zeta. cbn [fst r_stream r_skip r_hd with_hd].
   assert (Hhd : r_hd (if q_head q then with_skip R true else R) = r_hd R) by (destruct (q_head q); reflexivity).
   split; [destruct (q_head q); reflexivity|]. split; [destruct (q_head q); reflexivity|].
-  rewrite Hhd. set (cc := q_close q || c_disableKA c || hclose (rh (r_hd R))).
+  rewrite Hhd. set (cc := q_close q || c_disableKA c || _ || hclose (rh (r_hd R))).
   assert (T1 : triple (if cc then RSetConnectionClose (r_hd R)
                        else if negb (q_http11 q) then with_rh (r_hd R) (hsetNonSpecial (rh (r_hd R)) strConnection strKeepAlive) else r_hd R) = triple (r_hd R)).
   { destruct cc; [reflexivity|]. destruct (negb (q_http11 q)); [|reflexivity]. unfold triple, te_entries, hsetNonSpecial. cbn. now rewrite te_setArg. }
